@@ -1,1 +1,158 @@
-fn main(){}
+//! C03 — cleanup code frees exactly the heap data the lowering allocated.
+use e1_abivm::c03::{self, Stats};
+use e1_abivm::harness::*;
+use refabi::xcheck;
+use refabi::Ty;
+use serde_json::{json, Value};
+use std::collections::{BTreeMap, BTreeSet};
+
+const CHUNK: usize = 24;
+
+fn work_chunk(types: &[Ty]) -> Value {
+    vcommon::install_quiet_panic_hook();
+    let mut stats = Stats::default();
+    let mut findings: Vec<Value> = Vec::new();
+    let mut dropped: Vec<Value> = Vec::new();
+    let mut disagreements: Vec<String> = Vec::new();
+    let mut samples: Vec<Value> = Vec::new();
+    let envs: Vec<Env> = match Env::new(types) {
+        Ok(e) => vec![e],
+        Err(_) => types
+            .iter()
+            .filter_map(|t| match Env::new(std::slice::from_ref(t)) {
+                Ok(e) => Some(e),
+                Err(m) => {
+                    dropped.push(json!({"type": t.to_string(), "parser": m.lines().next().unwrap_or("")}));
+                    None
+                }
+            })
+            .collect(),
+    };
+    let mut memo: BTreeMap<Ty, BTreeSet<String>> = BTreeMap::new();
+    let mut heap_types = 0u64;
+    for env in &envs {
+        for i in 0..env.types.len() {
+            let ty = &env.types[i];
+            let mut rep = xcheck::Report::default();
+            xcheck::check_type(env.resolve(), &env.sizes, &env.root(i), ty, &mut rep);
+            disagreements.extend(rep.disagreements);
+            if ty.contains_heap() {
+                heap_types += 1;
+            }
+            let mut fs = Vec::new();
+            for pol in c03::policies(ty) {
+                fs.extend(c03::check_type(env, i, pol, &mut stats));
+            }
+            let fs = first_per_class(fs);
+            if samples.len() < 2 && ty.contains_heap() {
+                let vs = refabi::universe::values(ty);
+                samples.push(json!({"type": ty.to_string(), "values": vs.len(), "a_value": vs[vs.len() / 2].to_string()}));
+            }
+            for f in fs {
+                let is_panic = f.class.starts_with("panic:");
+                let min = minimise(ty, &f.class, &mut memo, &mut |t| {
+                    c03::classes_of(t).into_iter().map(|f| f.class).collect()
+                });
+                let fmin = c03::classes_of(&min).into_iter().find(|g| g.class == f.class).unwrap_or(f.clone());
+                let key = if is_panic { f.class.clone() } else { format!("{}:{}", f.class, min) };
+                let mut detail = fmin.detail.clone();
+                detail["found_in"] = json!(ty.to_string());
+                detail["class"] = json!(f.class);
+                findings.push(json!({"key": key, "what": fmin.what, "detail": detail}));
+            }
+        }
+    }
+    json!({
+        "findings": findings, "dropped": dropped, "disagreements": disagreements, "samples": samples,
+        "cases": stats.cases, "nontrivial": stats.nontrivial, "allocs": stats.allocs, "frees": stats.frees,
+        "drops": stats.drops, "irs": stats.irs, "outcomes": stats.outcomes.len(), "heap_types": heap_types,
+        "types": envs.iter().map(|e| e.types.len()).sum::<usize>(),
+    })
+}
+
+fn main() {
+    let mut run = vcommon::Run::from_args("C03", "exploration");
+    vcommon::install_quiet_panic_hook();
+
+    if let Some(d) = run.replay_detail() {
+        let ty = Ty::from_json(&d["type"]).unwrap_or_else(|e| vcommon::machinery(&format!("bad replay type: {e}")));
+        let class = d["class"].as_str().unwrap_or("").to_string();
+        println!("replaying C03 on type {ty} (class {class})");
+        let fs = c03::classes_of(&ty);
+        for f in &fs {
+            println!("  {}: {}", f.class, f.what);
+        }
+        let still = fs.iter().any(|f| f.class == class);
+        println!("{}", if still { "REPLAY: still fails" } else { "REPLAY: passes now" });
+        std::process::exit(if still { 1 } else { 0 });
+    }
+
+    let uni_name = run.pick("quick", "deep");
+    let mut types = refabi::universe::universe(uni_name);
+    if !run.thorough() {
+        // quick: add the heap-carrying part of U2 (where cleanup has something to do)
+        let extra: Vec<Ty> = refabi::universe::u2().into_iter().filter(|t| t.contains_heap()).collect();
+        let mut seen: BTreeSet<Ty> = types.iter().cloned().collect();
+        types.extend(extra.into_iter().filter(|t| seen.insert(t.clone())));
+    }
+    rotate(&mut types, run.seed);
+    let chunks: Vec<Vec<Ty>> = types.chunks(CHUNK).map(|c| c.to_vec()).collect();
+    let results = vcommon::par_map(chunks.len(), vcommon::ncpu(), |i| work_chunk(&chunks[i]));
+
+    let mut tot: BTreeMap<&str, u64> = BTreeMap::new();
+    let mut dropped = Vec::new();
+    let mut samples = Vec::new();
+    let mut disagreements = Vec::new();
+    for r in &results {
+        for k in ["cases", "nontrivial", "allocs", "frees", "drops", "irs", "outcomes", "types", "heap_types"] {
+            *tot.entry(k).or_insert(0) += r[k].as_u64().unwrap_or(0);
+        }
+        dropped.extend(r["dropped"].as_array().cloned().unwrap_or_default());
+        if samples.len() < 8 {
+            samples.extend(r["samples"].as_array().cloned().unwrap_or_default().into_iter().take(1));
+        }
+        for d in r["disagreements"].as_array().cloned().unwrap_or_default() {
+            disagreements.push(d.as_str().unwrap_or("").to_string());
+        }
+    }
+    if !disagreements.is_empty() {
+        vcommon::machinery(&format!(
+            "reference disagrees with trusted wit-parser function on {} shapes, first: {}",
+            disagreements.len(),
+            disagreements[0]
+        ));
+    }
+    for r in &results {
+        for f in r["findings"].as_array().cloned().unwrap_or_default() {
+            run.violation(f["key"].as_str().unwrap_or("?"), f["what"].as_str().unwrap_or(""), f["detail"].clone());
+        }
+    }
+    let coverage = json!({
+        "evaluations": tot["cases"],
+        "distinct_nontrivial": tot["nontrivial"],
+        "rule": "a case = (type, list policy, pointer width, value, cleanup entry point) plus one needs-post-return comparison per type; it is counted non-trivial when the lowering allocated at least one heap buffer or the value holds an owned handle (so the cleanup stream had something to free or drop)",
+        "distinct_outcomes": tot["outcomes"],
+        "distinct_outcomes_rule": "distinct (multiset of allocated (size,align), list of dropped handles), summed over work chunks",
+        "exhaustive": true,
+        "universe": if run.thorough() { "deep".to_string() } else { "quick ∪ heap-carrying part of u2".to_string() },
+        "types": tot["types"],
+        "types_with_heap": tot["heap_types"],
+        "entry_points": ["post_return after call(GuestExport, LiftArgsLowerResults, func() -> T) (when guest_export_needs_post_return)",
+                         "deallocate_lists_in_types / deallocate_lists_and_own_in_types, indirect, types [T] and [u8, T] after lower_to_memory",
+                         "deallocate_lists_in_types / deallocate_lists_and_own_in_types, direct operands (flatten(T) <= 16) after lower_flat"],
+        "buffers_allocated": tot["allocs"], "frees_observed": tot["frees"], "handles_dropped": tot["drops"],
+        "instruction_streams_recorded": tot["irs"],
+        "pointer_widths": [4, 8],
+        "oracle": "frees == ledger of the lowering as multisets of (ptr,size,align) [double / foreign / wrong-layout frees and use-after-free are VM errors], nothing left allocated, DropHandle set == own/future/stream handles of the value in lists+own mode and empty in lists mode, borrows never dropped, ledger == refabi.heap_buffers, guest_export_needs_post_return <=> refabi contains_heap",
+        "bounds": refabi::universe::bounds_json(),
+        "dropped_shapes": dropped,
+        "samples": samples,
+    });
+    run.finish(coverage, vec![
+        "a heap buffer = the out-of-line storage of a string, list or map; size-0 buffers are neither allocated nor freed (cabi_realloc / cabi_dealloc are no-ops on size 0), as in the Rust and C runtimes".into(),
+        "error-context handles: the property names resource, future and stream handles only, so dropping or not dropping an error-context is not judged".into(),
+        "direct-operand cleanup is exercised only for flatten(T) <= 16 (the only situation in which the canonical ABI passes values flat)".into(),
+        "lowering happens through lower_to_memory / lower_flat / call(GuestExport, LiftArgsLowerResults), all of which use realloc = cabi_realloc, i.e. callee-owned buffers".into(),
+        "pointer width 8 = ArchitectureSize extrapolation; oracle sizes/alignments from refabi, cross-checked against wit-parser SizeAlign (disagreement = exit 2)".into(),
+    ]);
+}
